@@ -85,6 +85,9 @@ def inject_monitored(stg, fr, s, R, tag):
     ret = c01.call_add_signal(fr, stg, s['spec'], s['opts'], s['brange'], ref, lo, hi)
     after = fr.data
     new = state_digest(fr)
+    for nm, arr, arr_before in getattr(ref, '_caller_arrays', []):
+        R.check(np.array_equal(arr, arr_before), 'caller-array-modified:' + nm, tag=tag)
+        R.count('caller_arrays_checked')
     R.count('state_digests')
     for k in old:
         same = (old[k] == new[k])
